@@ -22,6 +22,8 @@ ASSUMPTIONS = ["strace inject semantics: SIGKILL on entry to the n-th call of th
                "process death only (page cache intact)", "POSIX rename atomicity"]
 
 TMP = re.compile(r"\.PID\.renamify\.tmp$|\.lock\.\d+$|\.json\.tmp$")
+# renamify's own probe artefacts (case-sensitivity test of apply.rs / undo.rs): not user files; a kill may leave one behind
+PROBE = re.compile(r"(^|/)\.renamify_case_test$|(^|/)\.tmp[A-Za-z0-9]{6}(/|$)")
 
 
 def norm(s):
@@ -75,7 +77,7 @@ def oracle(sb, old, new, hist_before, R, fmap=None):
     legit = {v[2] for v in list(old.values()) + list(new.values()) if v[0] == "f"}
     # (a) every user file has complete old or complete new content
     for p, v in now.items():
-        if v[0] != "f" or TMP.search(p):
+        if v[0] != "f" or TMP.search(p) or PROBE.search(p):
             continue
         if v[2] not in legit:
             probs.append(f"file {p} has content that is neither its complete old nor its complete new content ({v[3]} bytes)")
@@ -131,6 +133,13 @@ def oracle(sb, old, new, hist_before, R, fmap=None):
 
 def scenario(g, i):
     a, b = g.term_pair()
+    if i % 3 == 2:
+        # a rename that only changes the case of names (fooBar -> foobar): apply.rs has a two-step path for it
+        s, t = gen.render(a, "Camel"), gen.render(a, "LowerFlat")
+        tree = [{"p": "src", "k": "d", "m": 0o755}, {"p": "src/" + s + ".txt", "k": "f", "c": (s + " one\n").encode(), "m": 0o644},
+                {"p": s + "_dir", "k": "d", "m": 0o755}, {"p": s + "_dir/inner.txt", "k": "f", "c": b"plain\n", "m": 0o600},
+                {"p": "keep.txt", "k": "f", "c": b"untouched\n", "m": 0o644}]
+        return tree, s, t
     s = gen.render(a, "Snake")
     tree = [{"p": "a_" + s + ".txt", "k": "f", "c": (s + " one\nline two " + s + "\n").encode(), "m": 0o644},
             {"p": "plain.txt", "k": "f", "c": ("x " + s + " y\n").encode(), "m": [0o600, 0o444, 0o640, 0o400][i % 4]},
@@ -156,7 +165,7 @@ def run(R):
     M = core.Model([str(mp)])
     g = gen.G(R.seed * 48271 + 11)
     quick = R.tier == "quick"
-    nscen = 2 if quick else 24
+    nscen = 3 if quick else 24
     fails, dis, known = [], [], {}
     stats = {"scenarios": 0, "killed_runs": 0, "events_by_class": {}, "by_command": {}}
     for i in range(nscen):
